@@ -75,6 +75,9 @@ type Options struct {
 	Torn int
 	// MrpPid is what os.Getpid returns inside package core (uniquifiers).
 	MrpPid int
+	// Inspect runs after the run ended and before the scratch directory is
+	// removed (for oracles that look at the file system).
+	Inspect func(res *Result)
 }
 
 // ObsJob is what one executed job observed.
@@ -117,11 +120,61 @@ type Result struct {
 	NodeStates  map[string]string
 	Unordered   map[string]int
 	H           *core.VerifHarness
+	// file checks
+	FileProblems []string           // a job found a file named in its arguments missing or damaged
+	Removed      []Removal          // removals performed by storage.go (VDR), measured just before
+	Written      map[string]int64   // files written by stage code: path -> size
+	Tree         map[string]int64   // regular files under the pipestance dir at the end: path -> size
+	PsPath       string
+	VdrReport    *core.VDRKillReport
+	OutsideEffects []string
+	DebugNotes     []string
+}
+
+// Removal is one VDR deletion as measured by the harness.
+type Removal struct {
+	Path  string
+	Site  string
+	Count int   // regular files and links removed
+	Size  int64 // their bytes
+	Dirs  int   // directories removed (including the root)
+	DirSz int64
+	Iter  int
 }
 
 type PermPoint struct {
 	Site string
 	N    int
+}
+
+type deferredGo struct {
+	fn    func()
+	after int
+}
+
+// CheckFileIntact verifies a file (or directory) written by the FILEW
+// library function: it must exist and still carry its self-describing
+// content.  Returns "" if intact.
+func CheckFileIntact(pth string) string {
+	info, err := os.Stat(pth)
+	if err != nil {
+		return "file " + pth + " named in the arguments is missing: " + err.Error()
+	}
+	if info.IsDir() {
+		ents, err := os.ReadDir(pth)
+		if err != nil || len(ents) == 0 {
+			return "directory " + pth + " named in the arguments is empty or unreadable"
+		}
+		return ""
+	}
+	b, err := os.ReadFile(pth)
+	if err != nil {
+		return "file " + pth + " is unreadable: " + err.Error()
+	}
+	if !strings.HasPrefix(string(b), "FILEW\n") {
+		return "file " + pth + " does not have the content its producer wrote"
+	}
+	return ""
 }
 
 var forkRe = regexp.MustCompile(`^(.*)\.fork([^.]+)(?:\.chnk(\d+))?$`)
@@ -156,6 +209,8 @@ func WriteProgram(p *progen.Program, dir string) (string, error) {
 
 const Psid = "ps"
 
+var scratchSeq int
+
 // Run executes the program once under the schedule.
 func Run(p *progen.Program, sched Schedule, opts Options) (res *Result) {
 	res = &Result{}
@@ -172,10 +227,18 @@ func Run(p *progen.Program, sched Schedule, opts Options) (res *Result) {
 		dir = opts.PsDir
 		os.MkdirAll(dir, 0o755)
 	} else {
-		dir, err = os.MkdirTemp(base, "psx-")
-		if err != nil {
-			res.Err = err.Error()
-			return
+		// fixed-width name: file contents embed their own path, and sizes
+		// must not vary from run to run
+		for i := 0; ; i++ {
+			scratchSeq++
+			dir = filepath.Join(base, fmt.Sprintf("psx-%07d-%07d", os.Getpid()%10000000, scratchSeq%10000000))
+			if err = os.Mkdir(dir, 0o755); err == nil {
+				break
+			}
+			if i > 100 {
+				res.Err = err.Error()
+				return
+			}
 		}
 	}
 	res.Dir = dir
@@ -206,13 +269,13 @@ func Run(p *progen.Program, sched Schedule, opts Options) (res *Result) {
 	}
 	var h *core.VerifHarness
 	goIdx := 0
-	var deferred []func()
+	var deferred []deferredGo
 	vshim.GoHook = func(site string, fn func()) bool {
 		i := goIdx
 		goIdx++
 		res.GoPoints = append(res.GoPoints, site)
-		if _, ok := sched.GoDefer[i]; ok && strings.Contains(site, "stage.go") {
-			deferred = append(deferred, fn)
+		if n, ok := sched.GoDefer[i]; ok && strings.Contains(site, "stage.go") && !strings.Contains(site, "doChunks") {
+			deferred = append(deferred, deferredGo{fn, n})
 			return true
 		}
 		fn()
@@ -232,6 +295,28 @@ func Run(p *progen.Program, sched Schedule, opts Options) (res *Result) {
 			crashed = true
 			tornArmed = op == "write"
 			return false
+		}
+		if !strings.HasPrefix(path, dir+"/") && path != dir && len(res.OutsideEffects) < 20 {
+			res.OutsideEffects = append(res.OutsideEffects, op+" "+path+" @"+site)
+		}
+		if (op == "removeall" || op == "remove") && strings.Contains(site, "storage.go") {
+			rm := Removal{Path: path, Site: site}
+			if h != nil {
+				rm.Iter = h.Iter
+			}
+			filepath.Walk(path, func(_ string, info os.FileInfo, err error) error {
+				if err == nil {
+					if info.IsDir() {
+						rm.Dirs++
+						rm.DirSz += info.Size()
+					} else {
+						rm.Count++
+						rm.Size += info.Size()
+					}
+				}
+				return nil
+			})
+			res.Removed = append(res.Removed, rm)
 		}
 		return true
 	}
@@ -352,6 +437,16 @@ func Run(p *progen.Program, sched Schedule, opts Options) (res *Result) {
 				pth = filepath.Join(j.FilesPath, pth)
 			}
 			h.JobWriteFile(j, pth, []byte(content))
+			if res.Written == nil {
+				res.Written = map[string]int64{}
+			}
+			res.Written[pth] = int64(len(content))
+		}
+		io.TempPath = filepath.Join(j.MdPath, "tmp")
+		io.CheckFile = func(pth string) {
+			if msg := CheckFileIntact(pth); msg != "" {
+				res.FileProblems = append(res.FileProblems, fmt.Sprintf("job %s (loop iteration %d): %s", j.Key(), h.Iter, msg))
+			}
 		}
 		fault := ""
 		if f := opts.Fault; f != nil && f.Job == j.Key() && (f.Times == 0 || faultFired < f.Times) {
@@ -398,15 +493,32 @@ func Run(p *progen.Program, sched Schedule, opts Options) (res *Result) {
 		if crashed {
 			break
 		}
-		for len(deferred) > 0 {
-			f := deferred[0]
-			deferred = deferred[1:]
-			f()
+		{
+			var keep []deferredGo
+			for _, d := range deferred {
+				if d.after <= 0 {
+					d.fn()
+				} else {
+					d.after--
+					keep = append(keep, d)
+				}
+			}
+			deferred = keep
 		}
 		register()
 		res.State = string(state)
 		if state == core.Complete || state == core.DisabledState {
-			h.CleanupCompleted()
+			// goroutines that are still pending run (in spawn order) before
+			// the final clean-up; mrp gives them no such guarantee, but the
+			// final VDRKill takes the same locks
+			for _, d := range deferred {
+				d.fn()
+			}
+			deferred = nil
+			if os.Getenv("VERIF_DEBUG") != "" {
+				res.DebugNotes = append(res.DebugNotes, h.VdrDebug()...)
+			}
+			res.VdrReport = h.CleanupCompleted()
 			break
 		}
 		if state == core.Failed {
@@ -477,6 +589,16 @@ func Run(p *progen.Program, sched Schedule, opts Options) (res *Result) {
 		}
 	}
 	res.Events = h.Events
+	res.PsPath = psdir
+	if !crashed {
+		res.Tree = map[string]int64{}
+		filepath.Walk(psdir, func(pth string, info os.FileInfo, err error) error {
+			if err == nil && info.Mode().IsRegular() {
+				res.Tree[pth] = info.Size()
+			}
+			return nil
+		})
+	}
 	if !crashed {
 		if b, err := h.TopOuts(); err == nil {
 			res.TopOutsText = string(b)
@@ -485,6 +607,9 @@ func Run(p *progen.Program, sched Schedule, opts Options) (res *Result) {
 			}
 		}
 		res.NodeStates = h.NodeStates()
+	}
+	if opts.Inspect != nil {
+		opts.Inspect(res)
 	}
 	return res
 }
